@@ -184,6 +184,33 @@ def guard_and_store(ctx):
             ctx.ok(f"{q}#other-key", fn)
 
 
+@rule("C10.order-in-key", props=["C10", "C08", "C09", "C02", "C03", "C04", "C05", "C06", "C07"], min_instances=3, mutants=[
+    ("the function generated for the same blades in another order is reused", ("operator_dict", "    def __getitem__(self, keys_in: Tuple[Tuple[int]]):\n        if keys_in not in self.operator_dict:\n            # Make symbolic multivectors for each set of keys and generate the code.\n            mvs = [self.algebra.multivector(",
+                                                                                "    def __getitem__(self, keys_in: Tuple[Tuple[int]]):\n        if keys_in not in self.operator_dict:\n            for known_keys, known in self.operator_dict.items():\n                if tuple(frozenset(k) for k in known_keys) == tuple(frozenset(k) for k in keys_in):\n                    self.operator_dict[keys_in] = known\n                    return known\n            # Make symbolic multivectors for each set of keys and generate the code.\n            mvs = [self.algebra.multivector(")),
+])
+def order_in_key(ctx):
+    """The storage ORDER of an operand's blades is part of the cache key: a generated function unpacks its operands by position, so the
+    blades of a cached pattern in another order are another pattern - looked up after it on the same dictionary object they must be
+    generated for themselves, not answered with the other order's function (every operator's values would land on other blades)."""
+    from .c08 import run_getitem_sequence
+    from ..astx import NoValue
+    for q in GETITEMS:
+        fn = ctx.func(q)
+        c = f"{q}#same blades, other order"
+        try:
+            log = run_getitem_sequence(ctx.repo, q)
+        except NoValue as exc:
+            raise Unknown(c, str(exc), fn)
+        if log.get("raised"):
+            raise Unknown(c, f"the look-up sequence raises {log['raised']}", fn)       # reported by C10.guard-and-store
+        if log["reordered"] == "ok":
+            ctx.ok(c, fn, key=str(log["reordered_key"]))
+        else:
+            ctx.violation(c, f"after the pattern {log['key']!r} was generated, looking up {log['reordered_key']!r} (the same blades stored in another "
+                             f"order) is {log['reordered']}: the function that unpacks its operands in the first order is applied to operands "
+                             f"stored in the second, so coefficients are bound to the wrong blades", fn)
+
+
 @fixture_for("C10.guard-and-store")
 def _fx_guard(ctx):
     src = ("def __getitem__(self, keys_in):\n"
